@@ -238,7 +238,7 @@ func c08Projects(ctx *Ctx, r *Rng) {
 		// the catalog-construction model on the forests of multi-file projects (with single faults in some)
 		buildCorrespondenceProjects(ctx, cutProjects, "documents cut into included files (plain and with a line mutant in one file)")
 		// the composed model on the FILES of the same projects and of the include graphs (cycles, missing files, directories, JSIGHT)
-		projectFSCorrespondence(ctx, append(append([]Project{}, cutProjects...), includeGraphs(r.Fork())...), "documents cut into included files (plain and with a line mutant in one file) and include graphs")
+		projectFSCorrespondence(ctx, append(append(append([]Project{}, cutProjects...), includeGraphs(r.Fork())...), dagProjects...), "documents cut into included files (plain and with a line mutant in one file), include graphs, cycle-free include graphs with shared files")
 	}()
 	for i := 0; i < n && len(ctx.Violations) < 10; i++ {
 		m := GenModel(r)
@@ -337,7 +337,11 @@ func c08Projects(ctx *Ctx, r *Rng) {
 // includeDags: cycle-free include graphs in which files are SHARED — a file that itself includes others is included
 // several times, from different files, at different depths, in both orders (deep use first / shallow use first) and from
 // sub-directories. INCLUDE is textual: the project must give the verdict and the catalog of the flattened text.
+// dagProjects: the projects of the last includeDags run (also fed to the composed model)
+var dagProjects []Project
+
 func includeDags(ctx *Ctx, r *Rng) int {
+	dagProjects = nil
 	n := ctx.Budget(120, 6000)
 	cases := 0
 	for it := 0; it < n && len(ctx.Violations) < 10; it++ {
@@ -422,6 +426,7 @@ func includeDags(ctx *Ctx, r *Rng) int {
 		}
 		single := flat(string(files["root.jst"]), 0, 0)
 		p := Project{Files: files, Root: "root.jst"}
+		dagProjects = append(dagProjects, p)
 		res := RunProject(p, false)
 		one := RunProject(SingleFile([]byte(single)), false)
 		cases++
